@@ -72,25 +72,41 @@ const c12Stall = 2 * time.Second
 func c12Setup(t *testing.T) *c12Twins {
 	c12Once.Do(func() {
 		logx.Disable()
-		var err error
-		if c12T.mA, err = miniredis.Run(); err != nil {
-			t.Fatalf("miniredis A: %v", err)
-		}
-		if c12T.mB, err = miniredis.Run(); err != nil {
-			t.Fatalf("miniredis B: %v", err)
-		}
-		c12T.admA = red.NewClient(&red.Options{Addr: c12T.mA.Addr()})
-		c12T.rawB = red.NewClient(&red.Options{Addr: c12T.mB.Addr()})
-		c12T.blockA, err = CreateBlockingNode(New(c12T.mA.Addr()))
-		if err != nil {
-			t.Fatalf("blocking node: %v", err)
-		}
-		// warm the shared wrapper client (clientManager) outside of any bubble
-		if !New(c12T.mA.Addr()).Ping() {
-			t.Fatalf("wrapper cannot reach miniredis A")
-		}
+		c12Renew(t)
 	})
 	return &c12T
+}
+
+// c12Renew puts fresh servers (new addresses) and fresh clients behind the twins.
+// Used at start-up and after a stalled step: a command that timed out on the client
+// side may still be executed by the old server later ("zombie"); it must not reach
+// the servers of the following cases. The old servers are simply abandoned.
+func c12Renew(t *testing.T) {
+	var err error
+	if old := c12T; old.mA != nil {
+		// addresses are never reused; closing the old servers also kills zombies
+		old.admA.Close()
+		old.rawB.Close()
+		old.blockA.Close()
+		go old.mA.Close()
+		go old.mB.Close()
+	}
+	if c12T.mA, err = miniredis.Run(); err != nil {
+		t.Fatalf("miniredis A: %v", err)
+	}
+	if c12T.mB, err = miniredis.Run(); err != nil {
+		t.Fatalf("miniredis B: %v", err)
+	}
+	c12T.admA = red.NewClient(&red.Options{Addr: c12T.mA.Addr()})
+	c12T.rawB = red.NewClient(&red.Options{Addr: c12T.mB.Addr()})
+	c12T.blockA, err = CreateBlockingNode(New(c12T.mA.Addr()))
+	if err != nil {
+		t.Fatalf("blocking node: %v", err)
+	}
+	// warm the shared wrapper client (clientManager) of the new address
+	if !New(c12T.mA.Addr()).Ping() {
+		t.Fatalf("wrapper cannot reach miniredis A")
+	}
 }
 
 // c12Env is the state of one interpreted case.
@@ -105,18 +121,25 @@ type c12Env struct {
 	ncmd    int
 }
 
-func (e *c12Env) reset() {
-	tw := e.tw
-	for _, m := range []*miniredis.Miniredis{tw.mA, tw.mB} {
-		m.FlushAll()
-		m.SetTime(c12T0)
-		m.Seed(12)
+func (e *c12Env) reset(t *testing.T) {
+	for {
+		tw := e.tw
+		for _, m := range []*miniredis.Miniredis{tw.mA, tw.mB} {
+			m.FlushAll()
+			m.SetTime(c12T0)
+			m.Seed(12)
+		}
+		bg := context.Background()
+		t0 := time.Now()
+		tw.admA.ScriptFlush(bg)
+		tw.rawB.ScriptFlush(bg)
+		if time.Since(t0) <= c12Stall {
+			break
+		}
+		c12Renew(t) // a late SCRIPT FLUSH must not hit a running case
 	}
-	bg := context.Background()
-	tw.admA.ScriptFlush(bg)
-	tw.rawB.ScriptFlush(bg)
 	e.now = c12T0
-	e.r = New(tw.mA.Addr())
+	e.r = New(e.tw.mA.Addr())
 	e.fails = 0
 }
 
@@ -255,7 +278,7 @@ func c12Ctx(x bool) context.Context {
 func c12Interp(t *testing.T, c c12Case) (v kit.Verdict) {
 	tw := c12Setup(t)
 	e := &c12Env{tw: tw, classes: map[string]bool{}, types: map[string]bool{}}
-	e.reset()
+	e.reset(t)
 	defer func() {
 		v.NonTrivial = e.ncmd >= 10 && len(e.types) >= 3 && e.hits >= 1
 		for k := range e.classes {
@@ -270,6 +293,7 @@ func c12Interp(t *testing.T, c c12Case) (v kit.Verdict) {
 			// environment guard, never a failure: see c12Stall
 			e.classes["env:stalled-step"] = true
 			v.Excluded = true
+			c12Renew(t)
 			return v
 		}
 		if msg != "" {
